@@ -28,6 +28,13 @@ Proof.
 Qed.
 Print Assumptions C19_blocked_is_unsafe_undefined.
 
+(* stored references: a bound mutating method handed to the template as DATA (render(f=lst.append)) never
+   passes attribute access; the immutable call gate refuses it, for every table accepted by the checker *)
+Theorem C19_refuses_stored_mutators_of_checker : forall spec pubs, calls_ok spec pubs = true ->
+  forall T m, In m (pubs T) -> mutates T m = true -> immutable_is_safe_callable spec T m = false.
+Proof. exact calls_ok_sound. Qed.
+Print Assumptions C19_refuses_stored_mutators_of_checker.
+
 (* underscore names (dunder mutators __setitem__, __iadd__, ...) are blocked for every table *)
 Theorem C19_private_blocked : forall tb spec T a, starts_underscore a = true ->
   immutable_is_safe_attribute tb spec T a = false.
@@ -96,5 +103,8 @@ Example C19_example :
   immutable_handout snap_tables snap_spec TDeque "count" = HValue /\
   immutable_handout snap_tables snap_spec TSet "intersection_update" = HUnsafeUndefined /\
   immutable_handout snap_tables snap_spec TSet "intersection" = HValue /\
-  failing_rows snap_tables snap_spec snap_public = [].
+  failing_rows snap_tables snap_spec snap_public = [] /\
+  immutable_is_safe_callable snap_spec TDeque "appendleft" = false /\
+  immutable_is_safe_callable snap_spec TList "index" = true /\
+  calls_ok snap_spec snap_public = true.
 Proof. vm_compute. repeat split; reflexivity. Qed.
